@@ -9,6 +9,14 @@ From Coq Require Import List ZArith.
 Import ListNotations.
 Local Open Scope Z_scope.
 
+(* the induction principle every theorem below instantiates *)
+Theorem c09_reachable_invariant :
+  forall (c : cfg) (P : st -> Prop),
+    (forall s l s', P s -> step c s l = Some s' -> P s') ->
+    forall ls s s', P s -> run c s ls = Some s' -> P s'.
+Proof. exact run_invariant. Qed.
+Print Assumptions c09_reachable_invariant.
+
 (* ---- A. give-up (without backoff.Stop) only when 0 <= AttemptNum < numTries, and after the calls
         numbered 0..numTries have all failed: at least AttemptNum + 2 failed calls ----------------- *)
 Theorem c09_retries_at_least :
